@@ -423,7 +423,17 @@ def tooled(fn):
     return transform(fn, proceed=proceed)
 
 
+# The instrumentation counters of a function and the code installed on it are
+# shared by all threads: activations and deactivations must not interleave.
+_tooling_lock = threading.RLock()
+
+
 def inplace(fn):
+    with _tooling_lock:
+        return _inplace(fn)
+
+
+def _inplace(fn):
     if is_tooled(fn):  # pragma: no cover
         return fn
     st = getattr(fn, "__ptera_stack__", None)
@@ -448,11 +458,6 @@ def inplace(fn):
 
 
 tooled.inplace = inplace
-
-
-# The instrumentation counters of a function and the code installed on it are
-# shared by all threads: activations and deactivations must not interleave.
-_tooling_lock = threading.RLock()
 
 
 def _tooler(fn, captures):
